@@ -508,8 +508,8 @@ theorem call1e_no_host_panic (h : Host) (ha : HostArgsOk h) (fds : Fds) (m : Mem
   case fd_close => fs1_case hc (fdClose_ne_panic _ _)
   case fd_fdstat_get => fs1_case hc (statLike_ne_panic _ _ _ _ _)
   case fd_filestat_get => fs1_case hc (statLike_ne_panic _ _ _ _ _)
-  case fd_seek => fs1_case hc (seekLike_ne_panic _ _ _)
-  case fd_tell => fs1_case hc (seekLike_ne_panic _ _ _)
+  case fd_seek => fs1_case hc (seekLike_ne_panic _ _ _ _)
+  case fd_tell => fs1_case hc (seekLike_ne_panic _ _ _ _)
   case proc_exit => fs1_case hc (by simp)
   case sched_yield => fs1_case hc (by simp)
 
